@@ -69,8 +69,10 @@ def generate(tape, tier="quick"):
     # dependency modes
     for ci, c in enumerate(comps):
         for i in c["inputs"]:
-            m = tape.weighted([("known", 6), ("connect", 2), ("rule", 2)])
-            if m == "rule" and c["outputs"]:
+            m = tape.weighted([("known", 6), ("connect", 2), ("rule", 2), ("known+connect", 2)])
+            if m == "known+connect":
+                i["info"] = "known+connect"
+            elif m == "rule" and c["outputs"]:
                 i["info"] = ["from_output", tape.choice(c["outputs"])["name"]]
                 i["units"] = None
             elif m == "connect":
